@@ -316,6 +316,37 @@ def cluster_laws(nsites, kind, cis):
         if transition:
             s0, s1 = cl.transitionstate()
             ob('istransition', bool(cl.istransition(s0 + T, s1 + T)))
+        if transition and not vacancy:
+            # a transition cluster without vacancy is direction-agnostic: reversed end points give an equal cluster
+            rev = cluster.Cluster([sites[1] + T, sites[0] + T] + [sites[k] + T for k in range(2, nsites)], transition=True)
+            ob('reversed-equal', bool(cl == rev) and bool(rev == cl) and not bool(cl != rev))
+        # the REAL cached hashes (the symbolic obligations above re-derive the hash keys from the documented scheme): evaluated
+        # at one concrete point of this path, taken from a solver model of the path condition
+        if src.symbolic:
+            r, sv = ENG.check()
+            if r == 'sat':
+                m = sv.model()
+
+                def val(x):
+                    v = m.eval(core.toz(x), model_completion=True)
+                    return int(v.as_long())
+                cR = [np.array([val(x) for x in Rk]) for Rk in Rs]
+                cT = np.array([val(x) for x in T])
+                csites = [CS(ci=cis[k], R=cR[k]) for k in range(nsites)]
+                c0 = cluster.Cluster(csites, transition=transition, vacancy=vacancy)
+                pairs = []
+                for perm in itertools.permutations(range(nspecial, nsites)):
+                    order = list(range(nspecial)) + list(perm)
+                    pairs.append(cluster.Cluster([csites[k] + cT for k in order], transition=transition, vacancy=vacancy))
+                if transition and not vacancy:
+                    pairs.append(cluster.Cluster([csites[1] + cT, csites[0] + cT] + [csites[k] + cT for k in range(2, nsites)], transition=True))
+                ob('real-hash-at-path-point', all((c0 != c2) or hash(c0) == hash(c2) for c2 in pairs))
+        else:
+            pairs = [cluster.Cluster([sites[k] + T for k in list(range(nspecial)) + list(perm)], transition=transition, vacancy=vacancy)
+                     for perm in itertools.permutations(range(nspecial, nsites))]
+            if transition and not vacancy:
+                pairs.append(cluster.Cluster([sites[1] + T, sites[0] + T] + [sites[k] + T for k in range(2, nsites)], transition=True))
+            ob('real-hash-at-path-point', all((cl != c2) or hash(cl) == hash(c2) for c2 in pairs))
         return obs
     return fn
 
@@ -382,7 +413,8 @@ def sections(tier):
         for gsel in range(4):
             secs.append(S('ps_g:%s:%d' % (cname, gsel), ps_g(cname, gsel), maxpaths=400, budget_s=300, replayer='ps_g'))
     kinds = [('plain', 2, [(0, 0), (0, 0)]), ('plain', 3, [(0, 0), (0, 1), (0, 0)]),
-             ('vac', 2, [(0, 0), (0, 0)]), ('ts', 3, [(0, 0), (0, 0), (0, 0)])]
+             ('vac', 2, [(0, 0), (0, 0)]), ('ts', 3, [(0, 0), (0, 0), (0, 0)]), ('ts', 3, [(0, 0), (0, 1), (0, 0)]),
+             ('ts', 2, [(0, 1), (0, 0)])]
     if tier == 'thorough':
         kinds += [('plain', 3, [(0, 0), (0, 0), (0, 0)]), ('plain', 3, [(1, 0), (0, 1), (0, 0)]),
                   ('vac', 3, [(0, 0), (0, 0), (0, 1)]), ('tsvac', 3, [(0, 0), (0, 0), (0, 1)]),
